@@ -107,6 +107,10 @@ class FString(object):
         return filter(self.is_correct_ast, actual_candidates)
 
     def str_for(self, s, quote):
+        if self.pep701 and any(c in '\\\r\0' or 0xD800 <= ord(c) <= 0xDFFF for c in s):
+            # Since PEP 701 a nested f-string may contain backslash escapes
+            return str(MiniString(s, quote)).replace('{', '{{').replace('}', '}}')
+
         return s.replace('{', '{{').replace('}', '}}')
 
 
@@ -370,6 +374,11 @@ class FormatSpec(object):
         return candidates
 
     def str_for(self, s):
+        if self.pep701:
+            # Since PEP 701 backslash escapes are interpreted in a format spec
+            s = s.replace('\\', '\\\\').replace('\r', '\\r').replace('\0', '\\x00')
+            s = ''.join('\\u%04x' % ord(c) if 0xD800 <= ord(c) <= 0xDFFF else c for c in s)
+
         return s.replace('{', '{{').replace('}', '}}')
 
 
